@@ -105,6 +105,10 @@ pub fn campaigns(ctx: &Ctx) -> Stats {
         st.merge(ctx.run_indexed("through-model-vs-by-hand", rc.len() as u64, None, |i| Some(rc[i as usize].clone())));
     }
     {
+        let va = crate::gens::view_alias_cases();
+        st.merge(ctx.run_indexed("operand-is-a-view-of-the-other", va.len() as u64, None, |i| Some(HistCase { oracle: "c01".into(), hist: va[i as usize].history() })));
+    }
+    {
         let fan = crate::scale::fan_in_cases("c01", t == Tier::Thorough);
         st.merge(ctx.run_indexed("one-node-consumed-up-to-70001-times", fan.len() as u64, None, |i| Some(fan[i as usize].clone())));
     }
